@@ -28,3 +28,10 @@ Proof. intros; split; reflexivity. Qed.
       columns of the remaining characters are those of the input *)
 Theorem C16_prepass_keeps_columns : forall line, exists rest, line = clean_line line ++ rest.
 Proof. exact clean_line_prefix. Qed.
+
+(* the lexer accounts for every character: tokens and reported errors together cover the input exactly once, so a
+   position computed from the tokens before it is a position in the input *)
+From Verif Require Import Proofs.LexPartition.
+Theorem C16_tokens_and_errors_cover_the_input : forall s,
+  (length (concat (map ttext (fst (lex_all s)))) + length (snd (lex_all s)) = length s)%nat.
+Proof. exact lex_all_accounts_for_every_character. Qed.
